@@ -149,6 +149,8 @@ def apply_op(c, op):
         c.connect_inputs(_oth(op[1]), name=op[2], add_prefix=op[3])
     elif k == 'extend_circuit':
         c.extend_circuit(_oth(op[1]), right_connect=op[2], name=op[3], add_prefix=op[4])
+    elif k == 'extend_circuit_x':  # explicit connector lists (possibly empty)
+        c.extend_circuit(_oth(op[1]), this_connectors=list(op[2]), other_connectors=list(op[3]), right_connect=op[4], name=op[5], add_prefix=op[6])
     elif k == 'add_circuit':
         c.add_circuit(_oth(op[1]), name=op[2], add_prefix=op[3])
     elif k == 'make_block':
@@ -259,8 +261,30 @@ def menu(c, level='full'):
         m.append(['remove_block', b])
     m.append(['into_bench'])
     m.append(['copy'])
+    # replace_subcircuit: the cone of every gate over its own operands, replaced by a
+    # double-negated copy (boundary labels kept) and by a fresh-label copy
+    for g in nonin:
+        t, ops_ = c.get_gate(g).gate_type.name, list(c.get_gate(g).operands)
+        I = list(dict.fromkeys(ops_))
+        if not I or g in I:
+            continue
+        sub = {'inputs': I, 'outputs': [g], 'gates': [[i, 'INPUT', []] for i in I] + [['zz_in', t, ops_], ['zz_n', 'NOT', ['zz_in']], [g, 'NOT', ['zz_n']]], 'blocks': {}}
+        m.append(['replace_subcircuit', sub, [[i, i] for i in I], [[g, g]]])
+        # two outputs where one feeds the other inside the replacement (kept labels)
+        for u in dict.fromkeys(c.get_gate_users(g)):
+            if u == g or u in I:
+                continue
+            tu, ops_u = c.get_gate(u).gate_type.name, list(c.get_gate(u).operands)
+            I2 = list(dict.fromkeys(I + [o for o in ops_u if o != g]))
+            if g in I2 or u in I2:
+                continue
+            sub3 = {'inputs': I2, 'outputs': [g, u], 'gates': [[i, 'INPUT', []] for i in I2] + [[g, t, ops_], [u, tu, ops_u]], 'blocks': {}}
+            m.append(['replace_subcircuit', sub3, [[i, i] for i in I2], [[g, g], [u, u]]])
+        sub2 = {'inputs': ['R_' + i for i in I], 'outputs': ['R_' + g], 'gates': [['R_' + i, 'INPUT', []] for i in I] + [['R_' + g, t, ['R_' + o for o in ops_]]], 'blocks': {}}
+        m.append(['replace_subcircuit', sub2, [[i, 'R_' + i] for i in I], [[g, 'R_' + g]]])
     # composition
-    m += composition_menu(c, level)
+    if level != 'nocomp':
+        m += composition_menu(c, level)
     return m
 
 
@@ -317,7 +341,10 @@ def explore(start_name, prefix, depth, acc, monitor, level='full', menu_fn=None,
                 continue
             if len(hist) >= depth:
                 continue
-            for op in menu_fn(c, level):
+            lv = level
+            if isinstance(level, (list, tuple)):
+                lv = level[min(len(hist), len(level) - 1)]
+            for op in menu_fn(c, lv):
                 acc.transitions += 1
                 h2 = hist + [op]
                 try:
